@@ -48,7 +48,7 @@ fn nap(d: u64) {
 }
 
 /// one timed call; returns timed_out; `woken` is set when the call may have been woken without data before its
-/// deadline (the deadline loops then park for the full timeout again: the bound is 2 d + 1 ms, see C08_callers_code_loop_*)
+/// deadline (before fix 3916da2 the deadline loops then parked for the full timeout again; the bound is d + 1 ms again)
 fn timed_call(api: &str, d: u64, sh: &Shared, rx: &Option<may::sync::mpsc::Receiver<u32>>, woken: &mut bool) -> bool {
     let dur = Duration::from_nanos(d);
     match api {
@@ -162,15 +162,8 @@ fn main() {
                     if timed_out && api != "park" && el < d {
                         c.fail(format!("{api}({d} ns) in {} reported a timeout after only {el} ns", if may::coroutine::is_coroutine() { "coroutine" } else { "thread" }));
                     }
-                    if !stalls && el > d + 1_000_000 + 200_000 && api != "cond" && !woken {
-                        c.fail(format!("{api}({d} ns) returned only after {el} ns although nothing delayed it"));
-                    }
-                    // the deadline loops park for the full timeout again after a wake-up without data: 2 d + 1 ms
-                    if !stalls && woken && el > 2 * d + 1_000_000 + 200_000 {
-                        c.fail(format!("{api}({d} ns) returned only after {el} ns although nothing delayed it (woken without data once)"));
-                    }
-                    if !stalls && woken && el > d + 1_000_000 + 200_000 {
-                        println!("NOTE late-timeout {api}({d} ns) returned after {el} ns: woken without data before the deadline, parked for the full timeout again");
+                    if !stalls && el > d + 1_000_000 + 200_000 && api != "cond" {
+                        c.fail(format!("{api}({d} ns) returned only after {el} ns although nothing delayed it{}", if woken { " (it was woken without data before the deadline)" } else { "" }));
                     }
                 }
             };
